@@ -115,11 +115,12 @@ class Family:
                 "alias": getattr(m, f"AB{i}"),
                 "stralias": getattr(m, f"SB{i}"),
                 "final": getattr(m, f"FB{i}"),
-                # created the way the library creates them; never evaluated (checked by fresh_refs_ok)
-                "fwdref": refs.forwardref(names[i], module=self.modname),
-                "fwdref_newtype": refs.forwardref(f"NB{i}", module=self.modname),
-                "fwdref_alias": refs.forwardref(f"AB{i}", module=self.modname),
-                "fwdref_stralias": refs.forwardref(f"SB{i}", module=self.modname),
+                # built with typing.ForwardRef itself (the harness does not ask the library under test for its keys); never evaluated
+                # (checked by fresh_refs_ok)
+                "fwdref": typing.ForwardRef(names[i], module=self.modname, is_class=True),
+                "fwdref_newtype": typing.ForwardRef(f"NB{i}", module=self.modname, is_class=True),
+                "fwdref_alias": typing.ForwardRef(f"AB{i}", module=self.modname, is_class=True),
+                "fwdref_stralias": typing.ForwardRef(f"SB{i}", module=self.modname, is_class=True),
                 "nt_final": getattr(m, f"NFB{i}"),
                 "nt_alias": getattr(m, f"NAB{i}"),
                 "nt_stralias": getattr(m, f"NSB{i}"),
